@@ -177,7 +177,7 @@ class Contexts:
         found = set()
         for m in view.methods():
             cls, fn = view.resolve(m)
-            if not any(isinstance(n, ast.Attribute) and n.attr == "possible_next_events" for n in ast.walk(fn)):
+            if not any(isinstance(n, ast.Attribute) and n.attr == "possible_next_events" for n in rules.walk(self.program, view, fn)):
                 continue
             w = Walker(self.program, view, track=lambda t, fr: True, inline=rules.new_helper,
                        keep=lambda e: e.kind == "guard" or (e.kind == "assign" and e.d["target"].startswith("self.possible_next_events[")))
@@ -186,6 +186,8 @@ class Contexts:
                     if e.kind == "assign":
                         key = e.d["target"][len("self.possible_next_events["):-1].strip("'\"")
                         if key not in self.prod:
+                            if m not in rules.ANCHOR_METHODS and e.frame.parent is None and key in {a.arg for a in fn.args.args}:
+                                continue        # a newly extracted helper that takes the event type as a parameter: analysed through its callers
                             raise AnalysisError("config: unknown event type %r produced in %s" % (key, m))
                         found.add(key)
                         for v in self.vals:
